@@ -491,7 +491,7 @@ def cisco_pix(pw, user="", asa=False):
         u = user.encode("utf-8")
         u4 = (u * 4)[:4] if len(u) < 4 else u[:4]
         data = pw + u4
-    pad = 32 if (asa and len(data) >= 16) else 16
+    pad = 32 if (asa and len(data) > 16) else 16   # 'more than 16' per the ASA 9.6 confirmed vectors (the format page says 'or more')
     data = (data + b"\x00" * pad)[:pad]
     d = hashlib.md5(data).digest()
     return h64_le_bytes(d[0:3] + d[4:7] + d[8:11] + d[12:15])
@@ -666,6 +666,11 @@ def selftest():
     eq("bigcrypt", bigcrypt(b"passphrase", "S/"), "S/8NbAAlzbYO66hAa9XZyWy2")
     eq("crypt16", crypt16(b"passphrase", "aa"), "aaX/UmCcBrceQ0kQGGWKTbuE")
     eq("cisco_pix", cisco_pix(b"password"), "NuLKvvWGg.x9HEKO")
+    # vectors marked 'confirmed ASA 9.6' in the repository's externally sourced known-answer list
+    eq("cisco_asa 16", cisco_pix(b"0123456789abcdef", "", asa=True), ".7nfVBEIEu4KbF/1")
+    eq("cisco_asa 16+user", cisco_pix(b"0123456789abcdef", "365", asa=True), "KFBI6cNQauyY6h/G")
+    eq("cisco_asa 17", cisco_pix(b"0123456789abcdefq", "", asa=True), "bKshl.EN.X3CVFRQ")
+    eq("cisco_asa 16+user4", cisco_pix(b"0123456789abcdef", "user1234", asa=True), "IneB.wc9sfRzLPoh")
     eq("dlitz", dlitz_pbkdf2_sha1(b"password", ".pPqsEwHD7MiECU0", 10000), "$p5k2$2710$.pPqsEwHD7MiECU0$b8TQ5AMQemtlaSgegw5Je.JBE3QQhLbO")
     eq("cta", cta_pbkdf2_sha1(b"password", base64.b64decode("oX9ZZOcNgYoAsYL-8bqxKg==", b"-_"), 10000),
        "$p5k2$2710$oX9ZZOcNgYoAsYL-8bqxKg==$AU2JLf2rNxWoZxWxRCluY0u6h6c=")
